@@ -83,6 +83,12 @@ def run(ctx, replay):
         return describe(sig, lines, rel, info) + ":late-data"
     vcore.validate_all(ctx, "NodeRecoveryTrace", "NodeRecoveryTrace_late.cfg", trl, describe=describe_late, dfs=False, max_rejections=20)
 
+    # the data family between the log and the kv store (module FamilyLifecycle): rows accepted by a family whose sequences are
+    # acknowledged are durable and visible -- freeze / commit / ack / drop of the flush against writes, a second memory
+    # database, Close, Evict, Retain / Release (extension XFAMILY, also part of this property since the fixes 9e8b7d0 / 7adde7c)
+    from props import xfamily
+    xfamily.family_leg(ctx, thorough)
+
     lines = vcore.read_lines(tr)
     clean = os.path.join(ctx.scratch, "node-clean.ndjson")
     with open(clean, "w") as f:
